@@ -743,10 +743,11 @@ class Gen:
             return [["assign", name, None, V(src), []]]
         if k == "transpose":
             pre = []
-            if self.chance(50) and n not in (4, 6):
+            if self.chance(75) and n != 6:
+                # only a genuinely rectangular matrix (2x3 / 3x2) shows what a transposition does
                 # make sure genuinely rectangular matrices get transposed: take (or first create) an
                 # array whose length has a non-trivial divisor
-                rect = [a for a in arrs if self.defined[a][1] in (4, 6)]
+                rect = [a for a in arrs if self.defined[a][1] == 6]
                 if rect:
                     src = self.choice(rect)
                 else:
@@ -765,7 +766,7 @@ class Gen:
             self.define(name, ["arr", n])
             self.features.add("matmul")
             c_ = self.bcall("<builtin>transpose", [V(src), C(cols)])
-            return pre + [["call", [name], c_[1], c_[2], c_[3]]] + self.observe_array(name, n)
+            return pre + [["call", [name], c_[1], c_[2], c_[3]]] + self.observe_array(name, n, sure=True)
         # matmul: a is (ra x ca), b is (ca x cb); all shapes incl. inner (1xn . nx1), outer and matrix-vector
         combos = []
         for other in arrs:
@@ -792,16 +793,16 @@ class Gen:
         c_ = self.bcall("<builtin>matmul", [V(src), V(other), C(ca), C(cb)])
         return [["call", [name], c_[1], c_[2], c_[3]]] + self.observe_array(name, nres)
 
-    def observe_array(self, name, n):
+    def observe_array(self, name, n, sure=False):
         """Make an element of a freshly computed array observable: add it to a persistent real
-        (or a temporary one) right away."""
-        if not self.chance(60):
+        (or a temporary one) right away.  sure: always, and an interior element when there is one."""
+        if not sure and not self.chance(60):
             return []
         pers = [x for x in P_REAL if self.defined.get(x) == REAL]
         tgt = self.choice(pers) if pers else self.fresh_or_existing(REAL, self.REAL_TEMPS)
         if tgt is None:
             return []
-        idx = C(self.draw(st.integers(0, n - 1)))
+        idx = C(self.draw(st.integers(1, n - 2)) if sure and n >= 3 else self.draw(st.integers(0, n - 1)))
         rhs = ["sub", V(name), [idx]]
         if tgt in self.defined:
             rhs = normal(["sum", V(tgt), rhs])
